@@ -1,1 +1,1330 @@
-fn main(){}
+//! C03 — merge keys (`<<`) equal the explicitly merged mapping with fixed precedence.
+//!
+//! Metamorphic oracle on the real code. For a document d the raw parser's tree
+//! (aliases expanded by anchor id) is rewritten by the property's own rule into
+//! M(d), the same document with every mapping written out in full:
+//!   own entries in document order, then the merge sources from last to first
+//!   (a later `<<` entry before an earlier one; a later element of a merge
+//!   sequence before an earlier one; nested sequences flattened in document order
+//!   and reversed; recursively for sources that contain merges), skipping keys that
+//!   are already present.
+//! `from_str::<T>(d)` and `from_str::<T>(M(d))` must then give equal Ok values (for
+//! the ordered pair-list target `Val` that includes delivery order) or both fail,
+//! under all three duplicate-key policies and every target of the family.
+//! Must-fail: merge value that is a non-null scalar / a sequence containing one.
+//! Must-be-ordinary: quoted or tagged `<<` (checked against the key renamed).
+//! The budget is off (`max_merge_keys` belongs to C07).
+
+use saphyr_parser::ScalarStyle;
+use serde::Deserialize;
+use serde::de::DeserializeOwned;
+use serde_json::json;
+use std::collections::{BTreeMap, BTreeSet};
+use vcore::reftree::{self, RNode, render_checked};
+use vcore::rng::{Rng, fnv_parts};
+use vcore::run::{Finish, Run, Tier, par_range};
+use vcore::targets::{self, Outcome, same_value_or_both_err, show};
+use vcore::val::Val;
+use vcore::ydoc::{Node, RenderOpts, Style};
+
+/// Thread-local accumulation of counters / observations (one lock per document instead of one per count).
+mod acc {
+    use std::cell::RefCell;
+    use std::collections::{BTreeMap, HashSet};
+    thread_local! {
+        static C: RefCell<BTreeMap<&'static str, u64>> = const { RefCell::new(BTreeMap::new()) };
+        static O: RefCell<HashSet<(&'static str, String)>> = RefCell::new(HashSet::new());
+    }
+    pub fn count(k: &'static str, n: u64) {
+        C.with(|c| *c.borrow_mut().entry(k).or_insert(0) += n);
+    }
+    pub fn observe(run: &vcore::run::Run, set: &'static str, label: &str) {
+        let new = O.with(|o| o.borrow_mut().insert((set, label.to_string())));
+        if new {
+            run.observe(set, label);
+        }
+    }
+    pub fn flush(run: &vcore::run::Run) {
+        let m = C.with(|c| std::mem::take(&mut *c.borrow_mut()));
+        if !m.is_empty() {
+            run.count_map(&m);
+        }
+    }
+}
+
+// ------------------------------------------------------------------ targets
+
+#[derive(Debug, Deserialize)]
+#[allow(dead_code)]
+struct Wide {
+    #[serde(default)]
+    k1: Option<Val>,
+    #[serde(default)]
+    k2: Option<Val>,
+    #[serde(default)]
+    k3: Option<Val>,
+    #[serde(default)]
+    k4: Option<Val>,
+    #[serde(default)]
+    k5: Option<Val>,
+    #[serde(default)]
+    a: Option<Val>,
+    #[serde(default)]
+    b: Option<Val>,
+}
+
+/// Same fields, unknown fields rejected: a `<<` that leaks through as a key, or a
+/// merged key that is not one of the fields, is an error here.
+#[derive(Debug, Deserialize)]
+#[serde(deny_unknown_fields)]
+#[allow(dead_code)]
+struct WideStrict {
+    #[serde(default)]
+    k1: Option<Val>,
+    #[serde(default)]
+    k2: Option<Val>,
+    #[serde(default)]
+    k3: Option<Val>,
+    #[serde(default)]
+    k4: Option<Val>,
+    #[serde(default)]
+    k5: Option<Val>,
+    #[serde(default)]
+    a: Option<Val>,
+    #[serde(default)]
+    b: Option<Val>,
+}
+
+fn local<T: DeserializeOwned + std::fmt::Debug>(s: &str, o: serde_saphyr::Options) -> Outcome {
+    serde_saphyr::from_str_with_options::<T>(s, o).map(|v| format!("{v:?}"))
+}
+
+type TargetFn = fn(&str, serde_saphyr::Options) -> Outcome;
+
+/// (name, function, struct-like: only sees the root mapping's fields)
+fn target_table() -> Vec<(&'static str, TargetFn, bool)> {
+    let v = |n: &str| targets::by_name(n).unwrap().from_str;
+    vec![
+        ("Val", v("Val"), false),
+        ("MapStrVal", v("MapStrVal"), false),
+        ("Rec", v("Rec"), true),
+        ("json", v("json"), false),
+        ("MapValVal", v("MapValVal"), false),
+        ("Wide", local::<Wide> as TargetFn, true),
+        ("WideStrict", local::<WideStrict> as TargetFn, true),
+    ]
+}
+
+const POLICY_NAMES: [&str; 3] = ["Error", "FirstWins", "LastWins"];
+
+fn opts(policy: usize) -> serde_saphyr::Options {
+    let mut o = vcore::errs::unlimited_options();
+    #[allow(deprecated)]
+    {
+        o.duplicate_keys = match policy {
+            1 => serde_saphyr::DuplicateKeyPolicy::FirstWins,
+            2 => serde_saphyr::DuplicateKeyPolicy::LastWins,
+            _ => serde_saphyr::DuplicateKeyPolicy::Error,
+        };
+    }
+    o
+}
+
+// ------------------------------------------------------------------ reference model (on the raw parser tree)
+
+/// Only an untagged plain scalar `<<` is a merge key.
+fn is_merge_key(k: &RNode) -> bool {
+    matches!(k, RNode::Scalar { value, style: ScalarStyle::Plain, tag: None, .. } if value == "<<")
+}
+
+fn is_null_scalar(n: &RNode) -> bool {
+    matches!(n, RNode::Scalar { value, style: ScalarStyle::Plain, tag: None, .. }
+        if value.is_empty() || value == "~" || value.eq_ignore_ascii_case("null"))
+}
+
+/// Same key node: same structure, scalar text and tag; style, position and
+/// anchors do not matter. (Tags on containers are flagged elsewhere.)
+fn key_eq(a: &RNode, b: &RNode) -> bool {
+    match (a, b) {
+        (RNode::Scalar { value: v1, tag: t1, .. }, RNode::Scalar { value: v2, tag: t2, .. }) => v1 == v2 && t1 == t2,
+        (RNode::Seq { items: i1, .. }, RNode::Seq { items: i2, .. }) => {
+            i1.len() == i2.len() && i1.iter().zip(i2).all(|(x, y)| key_eq(x, y))
+        }
+        (RNode::Map { entries: e1, .. }, RNode::Map { entries: e2, .. }) => {
+            e1.len() == e2.len() && e1.iter().zip(e2).all(|((k1, v1), (k2, v2))| key_eq(k1, k2) && key_eq(v1, v2))
+        }
+        _ => false,
+    }
+}
+
+#[derive(Default, Debug)]
+struct Flags {
+    /// some merge value is not a mapping / (nested) sequence of mappings / null
+    must_fail: bool,
+    /// … and it sits in the root mapping (struct-like targets are sure to reach it)
+    must_fail_root: bool,
+    unspecified: BTreeSet<&'static str>,
+    merge_entries: usize,
+    contributed: usize,
+    overridden: usize,
+    own_dups: bool,
+    merge_seq: bool,
+    nested_merge: bool,
+    model_error: bool,
+}
+
+struct Model;
+
+impl Model {
+    /// Entries a merge value stands for, in the order in which they are offered.
+    fn source_entries(&mut self, v: &RNode, fl: &mut Flags, in_seq: bool, at_root: bool) -> Vec<(RNode, RNode)> {
+        match v {
+            RNode::Map { entries, tag, .. } => {
+                if tag.is_some() {
+                    fl.unspecified.insert("tagged-merge-source");
+                }
+                self.written_out(entries, fl, true, at_root)
+            }
+            RNode::Seq { items, tag, .. } => {
+                if tag.is_some() {
+                    fl.unspecified.insert("tagged-merge-source");
+                }
+                fl.merge_seq = true;
+                let mut out = Vec::new();
+                for it in items.iter().rev() {
+                    out.extend(self.source_entries(it, fl, true, at_root));
+                }
+                out
+            }
+            n if is_null_scalar(n) => {
+                if in_seq {
+                    // "a (nested) sequence of mappings or null": null *inside* a sequence is not pinned down
+                    fl.unspecified.insert("null-inside-merge-sequence");
+                }
+                Vec::new()
+            }
+            RNode::Scalar { .. } => {
+                fl.must_fail = true;
+                if at_root {
+                    fl.must_fail_root = true;
+                }
+                Vec::new()
+            }
+            RNode::Alias { .. } => {
+                fl.model_error = true;
+                Vec::new()
+            }
+        }
+    }
+
+    /// The mapping written out in full (values and keys not yet rewritten).
+    fn written_out(&mut self, entries: &[(RNode, RNode)], fl: &mut Flags, is_source: bool, at_root: bool) -> Vec<(RNode, RNode)> {
+        let mut out: Vec<(RNode, RNode)> = Vec::new();
+        let mut dup = false;
+        for (k, v) in entries {
+            if !is_merge_key(k) {
+                if out.iter().any(|(k2, _)| key_eq(k2, k)) {
+                    dup = true;
+                }
+                out.push((k.clone(), v.clone()));
+            }
+        }
+        if dup {
+            fl.own_dups = true;
+            if is_source {
+                // which of a source's own repeated entries is offered is not stated
+                fl.unspecified.insert("duplicate-keys-inside-merge-source");
+            }
+        }
+        for (k, v) in entries.iter().rev() {
+            if is_merge_key(k) {
+                fl.merge_entries += 1;
+                if is_source {
+                    fl.nested_merge = true;
+                }
+                for (sk, sv) in self.source_entries(v, fl, false, at_root) {
+                    if out.iter().any(|(k2, _)| key_eq(k2, &sk)) {
+                        fl.overridden += 1;
+                    } else {
+                        fl.contributed += 1;
+                        out.push((sk, sv));
+                    }
+                }
+            }
+        }
+        out
+    }
+
+    fn contains_merge_key(n: &RNode) -> bool {
+        match n {
+            RNode::Map { entries, .. } => entries.iter().any(|(k, v)| is_merge_key(k) || Self::contains_merge_key(k) || Self::contains_merge_key(v)),
+            RNode::Seq { items, .. } => items.iter().any(Self::contains_merge_key),
+            _ => false,
+        }
+    }
+
+    /// M(n): every mapping below (and including) n written out.
+    fn m(&mut self, n: &RNode, fl: &mut Flags, at_root: bool) -> RNode {
+        match n {
+            RNode::Map { entries, tag, pos, .. } => {
+                let w = self.written_out(entries, fl, false, at_root);
+                let mut out = Vec::with_capacity(w.len());
+                for (k, v) in w {
+                    if matches!(k, RNode::Map { .. } | RNode::Seq { .. }) {
+                        if Self::contains_merge_key(&k) {
+                            fl.unspecified.insert("merge-key-inside-a-key");
+                        }
+                        if has_container_tag(&k) {
+                            fl.unspecified.insert("tagged-container-key");
+                        }
+                    }
+                    let v2 = self.m(&v, fl, false);
+                    out.push((k, v2));
+                }
+                RNode::Map { entries: out, tag: tag.clone(), anchor: 0, pos: *pos }
+            }
+            RNode::Seq { items, tag, pos, .. } => RNode::Seq {
+                items: items.iter().map(|i| self.m(i, fl, false)).collect(),
+                tag: tag.clone(),
+                anchor: 0,
+                pos: *pos,
+            },
+            other => other.clone(),
+        }
+    }
+}
+
+fn has_container_tag(n: &RNode) -> bool {
+    match n {
+        RNode::Map { entries, tag, .. } => tag.is_some() || entries.iter().any(|(k, v)| has_container_tag(k) || has_container_tag(v)),
+        RNode::Seq { items, tag, .. } => tag.is_some() || items.iter().any(has_container_tag),
+        _ => false,
+    }
+}
+
+/// Any mapping with a repeated own (non-merge) key anywhere in the tree.
+fn has_own_dups(n: &RNode) -> bool {
+    match n {
+        RNode::Map { entries, .. } => {
+            let own: Vec<&RNode> = entries.iter().filter(|(k, _)| !is_merge_key(k)).map(|(k, _)| k).collect();
+            for i in 0..own.len() {
+                for j in 0..i {
+                    if key_eq(own[i], own[j]) {
+                        return true;
+                    }
+                }
+            }
+            entries.iter().any(|(k, v)| has_own_dups(k) || has_own_dups(v))
+        }
+        RNode::Seq { items, .. } => items.iter().any(has_own_dups),
+        _ => false,
+    }
+}
+
+/// `run.violation` with a cap per signature (a defect that hits a whole class of generated
+/// documents would otherwise be reported tens of thousands of times); every occurrence beyond
+/// the cap is still counted.
+fn report(run: &Run, sig: &str, case: serde_json::Value, detail: impl Into<String>) {
+    use std::sync::Mutex;
+    static SEEN: Mutex<Option<std::collections::HashMap<String, u64>>> = Mutex::new(None);
+    let n = {
+        let mut g = SEEN.lock().unwrap();
+        let m = g.get_or_insert_with(Default::default);
+        let e = m.entry(sig.to_string()).or_insert(0);
+        *e += 1;
+        *e
+    };
+    if n <= 40 {
+        run.violation(sig, case, detail);
+    } else if n % 1000 == 0 {
+        run.count(&format!("occurrences_beyond_first_40/{sig}"), 1000);
+    }
+}
+
+// ------------------------------------------------------------------ the check of one document
+
+fn features(fl: &Flags, doc: &str) -> String {
+    let mut f = Vec::new();
+    if fl.merge_seq {
+        f.push("seq");
+    }
+    if fl.nested_merge {
+        f.push("nested");
+    }
+    if doc.contains('*') {
+        f.push("alias");
+    }
+    if fl.own_dups {
+        f.push("own-dups");
+    }
+    if fl.overridden > 0 {
+        f.push("collision");
+    }
+    if f.is_empty() { "plain".into() } else { f.join("+") }
+}
+
+fn mismatch_class(target: &str, a: &Outcome, b: &Outcome) -> &'static str {
+    match (a, b) {
+        (Ok(x), Ok(y)) => {
+            if target == "Val" {
+                // same pairs, other delivery order?
+                let strip = |s: &str| {
+                    let mut v: Vec<&str> = s.split(|c: char| !(c.is_alphanumeric() || c == '_' || c == '<')).filter(|t| !t.is_empty()).collect();
+                    v.sort();
+                    v.join(",")
+                };
+                if strip(x) == strip(y) { "order" } else { "content" }
+            } else {
+                "content"
+            }
+        }
+        (Ok(_), Err(_)) => "ok-vs-err",
+        (Err(_), Ok(_)) => "err-vs-ok",
+        _ => "err-vs-err",
+    }
+}
+
+struct Sel<'a> {
+    policies: &'a [usize],
+    targets: &'a [(&'static str, TargetFn, bool)],
+}
+
+/// Check one document text. `flow` is only the preferred layout of the written-out document.
+fn check_doc(run: &Run, doc: &str, flow: bool, sel: &Sel, class: &str) {
+    let Some(raw) = reftree::parse_one(doc) else {
+        run.inconclusive("generator-invalid: document rejected by the raw parser");
+        return;
+    };
+    let Some(exp) = raw.expand() else {
+        run.inconclusive("generator-invalid: unresolved alias");
+        return;
+    };
+    let mut fl = Flags::default();
+    let mut model = Model;
+    let m = model.m(&exp, &mut fl, true);
+    if fl.model_error {
+        run.inconclusive("model error: alias left after expansion");
+        return;
+    }
+    if !fl.unspecified.is_empty() {
+        for u in &fl.unspecified {
+            run.count(&format!("unspecified/{u}"), 1);
+        }
+        return;
+    }
+    let dups = has_own_dups(&exp);
+    if fl.must_fail {
+        if dups {
+            // FirstWins may legitimately never look at the offending value
+            acc::count("unspecified/must-fail-next-to-own-duplicates", 1);
+            return;
+        }
+        for &p in sel.policies {
+            for (tn, f, structlike) in sel.targets {
+                if *structlike && !fl.must_fail_root {
+                    continue;
+                }
+                run.eval();
+                let case = || json!({"kind": "doc", "doc": doc, "flow": flow, "class": class, "policy": POLICY_NAMES[p], "target": tn});
+                match vcore::obs::catch(|| f(doc, opts(p))) {
+                    Err(pn) => report(run, &format!("C03:panic:{}", vcore::obs::panic_site(&pn)), case(), pn),
+                    Ok(Ok(v)) => report(run, 
+                        "C03:invalid-merge-value-accepted",
+                        case(),
+                        format!("merge value that is neither mapping, sequence of mappings nor null gave Ok({v})"),
+                    ),
+                    Ok(Err(e)) => {
+                        acc::observe(run, "must_fail_error_kinds", &vcore::errs::kind(&e));
+                        acc::count("must_fail_held", 1);
+                        run.nontrivial(fnv_parts(&[doc.as_bytes(), tn.as_bytes(), &[p as u8]]));
+                    }
+                }
+            }
+        }
+        return;
+    }
+    // render M(d) and confirm it with the raw parser
+    let rendered = {
+        let ro = RenderOpts::new();
+        render_checked(&m.to_node(flow), &ro).or_else(|| render_checked(&m.to_node(!flow), &ro))
+    };
+    let Some((mdoc, mraw)) = rendered else {
+        run.inconclusive("generator-invalid: written-out document not parsed as intended");
+        return;
+    };
+    if mraw.has_alias() || mraw.has_anchor() || Model::contains_merge_key(&mraw) {
+        run.inconclusive("generator-invalid: written-out document still has merge keys/aliases");
+        return;
+    }
+    let nontrivial = fl.contributed + fl.overridden >= 1;
+    if fl.contributed > 0 {
+        acc::count("docs_with_contributing_merge", 1);
+    }
+    if fl.overridden > 0 {
+        acc::count("docs_with_overridden_merge_key", 1);
+    }
+    for &p in sel.policies {
+        for (tn, f, _) in sel.targets {
+            run.evals(2);
+            let case = || json!({"kind": "doc", "doc": doc, "written_out": mdoc, "flow": flow, "class": class, "policy": POLICY_NAMES[p], "target": tn});
+            let ra = vcore::obs::catch(|| f(doc, opts(p)));
+            let rb = vcore::obs::catch(|| f(&mdoc, opts(p)));
+            let (a, b) = match (ra, rb) {
+                (Err(pn), _) | (_, Err(pn)) => {
+                    report(run, &format!("C03:panic:{}", vcore::obs::panic_site(&pn)), case(), pn);
+                    continue;
+                }
+                (Ok(a), Ok(b)) => (a, b),
+            };
+            if !same_value_or_both_err(&a, &b) {
+                let sig = format!("C03:merge-vs-written-out:{}:{}", mismatch_class(tn, &a, &b), features(&fl, doc));
+                report(run, &sig, case(), format!("[{} {}] with merge keys: {} | written out: {}", POLICY_NAMES[p], tn, show(&a), show(&b)));
+            } else {
+                if nontrivial {
+                    run.nontrivial(fnv_parts(&[doc.as_bytes(), tn.as_bytes(), &[p as u8]]));
+                }
+                match &a {
+                    Ok(_) => acc::count("both_ok", 1),
+                    Err(e) => {
+                        acc::count("both_err", 1);
+                        if *tn == "Val" {
+                            acc::observe(run, "val_both_err_kinds", &vcore::errs::kind(e));
+                        }
+                    }
+                }
+            }
+        }
+    }
+}
+
+fn rename_keys(v: &Val, from: &str, to: &str) -> Val {
+    match v {
+        Val::Seq(s) => Val::Seq(s.iter().map(|x| rename_keys(x, from, to)).collect()),
+        Val::Map(m) => Val::Map(
+            m.iter()
+                .map(|(k, x)| {
+                    let k2 = match k {
+                        Val::Str(s) if s == from => Val::Str(to.to_string()),
+                        other => rename_keys(other, from, to),
+                    };
+                    (k2, rename_keys(x, from, to))
+                })
+                .collect(),
+        ),
+        other => other.clone(),
+    }
+}
+
+/// Quoted / tagged `<<` is an ordinary key: the document must read exactly like the
+/// same document with that key spelled `zz9` (same style, same tag), modulo the name.
+fn check_ordinary(run: &Run, doc: &str, renamed: &str, policies: &[usize]) {
+    for &p in policies {
+        run.evals(4);
+        let case = || json!({"kind": "ordinary", "doc": doc, "renamed": renamed, "policy": POLICY_NAMES[p]});
+        let r = vcore::obs::catch(|| {
+            (
+                serde_saphyr::from_str_with_options::<Val>(doc, opts(p)),
+                serde_saphyr::from_str_with_options::<Val>(renamed, opts(p)),
+                serde_saphyr::from_str_with_options::<BTreeMap<String, Val>>(doc, opts(p)),
+                serde_saphyr::from_str_with_options::<BTreeMap<String, Val>>(renamed, opts(p)),
+            )
+        });
+        let (a, b, c, d) = match r {
+            Err(pn) => {
+                report(run, &format!("C03:panic:{}", vcore::obs::panic_site(&pn)), case(), pn);
+                continue;
+            }
+            Ok(t) => t,
+        };
+        let mut ok = true;
+        match (&a, &b) {
+            (Ok(x), Ok(y)) => {
+                if *x != rename_keys(y, "zz9", "<<") {
+                    ok = false;
+                    report(run, 
+                        "C03:quoted-or-tagged-merge-key-not-ordinary:Val",
+                        case(),
+                        format!("`<<` spelling: {x} | renamed to zz9: {y}"),
+                    );
+                }
+            }
+            (Err(_), Err(_)) => {}
+            _ => {
+                ok = false;
+                report(run, 
+                    "C03:quoted-or-tagged-merge-key-not-ordinary:Val:ok-vs-err",
+                    case(),
+                    format!("`<<` spelling: {:?} | renamed: {:?}", a.as_ref().map(|v| v.to_string()).map_err(|e| vcore::errs::kind(e)), b.as_ref().map(|v| v.to_string()).map_err(|e| vcore::errs::kind(e))),
+                );
+            }
+        }
+        match (&c, &d) {
+            (Ok(x), Ok(y)) => {
+                let mut y2: BTreeMap<String, Val> = BTreeMap::new();
+                for (k, v) in y {
+                    let k2 = if k == "zz9" { "<<".to_string() } else { k.clone() };
+                    y2.insert(k2, rename_keys(v, "zz9", "<<"));
+                }
+                if *x != y2 {
+                    ok = false;
+                    report(run, 
+                        "C03:quoted-or-tagged-merge-key-not-ordinary:MapStrVal",
+                        case(),
+                        format!("`<<` spelling: {x:?} | renamed to zz9: {y:?}"),
+                    );
+                }
+            }
+            (Err(_), Err(_)) => {}
+            _ => {
+                ok = false;
+                report(run, "C03:quoted-or-tagged-merge-key-not-ordinary:MapStrVal:ok-vs-err", case(), "one side failed".to_string());
+            }
+        }
+        if ok {
+            acc::count("ordinary_key_held", 1);
+            if a.is_ok() {
+                acc::count("ordinary_key_both_ok", 1);
+            }
+            run.nontrivial(fnv_parts(&[doc.as_bytes(), b"ordinary", &[p as u8]]));
+        }
+    }
+}
+
+// ------------------------------------------------------------------ generator: specification trees
+
+#[derive(Clone, Debug)]
+enum Src {
+    Map(Vec<Ent>),
+    Alias(usize),
+    Seq(Vec<Src>),
+    /// a scalar written as is (null spellings, and the must-fail scalars)
+    Scalar(&'static str, Style),
+}
+
+#[derive(Clone, Debug)]
+enum Ent {
+    /// key code: `k1` plain, `"k1` double-quoted, `'k1` single-quoted, `!k1` tagged !!str,
+    /// `[k1` sequence key [k1], `{k1` mapping key {k1: x}
+    Own(&'static str),
+    /// own entry whose value is a mapping (with its own merges)
+    OwnMap(&'static str, Src),
+    Merge(Src),
+    /// ordinary-looking key with an arbitrary key node and a Src value
+    Keyed(Node, Src),
+}
+
+fn key_node(code: &str) -> Node {
+    if let Some(r) = code.strip_prefix('"') {
+        Node::dq(r)
+    } else if let Some(r) = code.strip_prefix('\'') {
+        Node::sq(r)
+    } else if let Some(r) = code.strip_prefix('!') {
+        Node::plain(r).with_tag("!!str")
+    } else if let Some(r) = code.strip_prefix('[') {
+        Node::fseq(vec![Node::plain(r)])
+    } else if let Some(r) = code.strip_prefix('{') {
+        Node::fmap(vec![(Node::plain(r), Node::plain("x"))])
+    } else {
+        Node::plain(code)
+    }
+}
+
+fn km(keys: &[&'static str]) -> Src {
+    Src::Map(keys.iter().map(|k| Ent::Own(k)).collect())
+}
+
+/// Anchored definitions that a case may refer to (by index).
+fn prelude() -> Vec<(&'static str, Src)> {
+    vec![
+        ("m1", km(&["k1", "k2"])),
+        ("m2", km(&["k2", "k3"])),
+        ("m3", km(&["k3", "k1"])),
+        ("m4", Src::Map(vec![Ent::Merge(Src::Alias(0)), Ent::Own("k3")])),
+        ("s1", Src::Seq(vec![Src::Alias(0), Src::Alias(1)])),
+        ("s2", Src::Seq(vec![Src::Seq(vec![Src::Alias(1)]), km(&["k1"])])),
+        // must-fail material
+        ("x1", Src::Scalar("sc", Style::Plain)),
+        ("x2", Src::Seq(vec![Src::Scalar("sc", Style::Plain)])),
+        ("x3", Src::Seq(vec![Src::Alias(0), Src::Scalar("sc", Style::Plain)])),
+    ]
+}
+
+/// Merge-value shapes of the exhaustive part.
+fn alphabet() -> Vec<Src> {
+    use Ent::*;
+    use Src::*;
+    let null = |t| Scalar(t, Style::Plain);
+    vec![
+        km(&["k1"]),
+        km(&["k1", "k2"]),
+        km(&["k2", "k3"]),
+        km(&["k3", "k1"]),
+        km(&["k4"]),
+        Alias(0),
+        Alias(1),
+        Alias(2),
+        null("~"),
+        null("null"),
+        Map(vec![]),
+        Seq(vec![]),
+        Seq(vec![km(&["k1", "k2"]), km(&["k2", "k3"])]),
+        Seq(vec![km(&["k2", "k3"]), km(&["k1", "k2"])]),
+        Seq(vec![Alias(0), Alias(1)]),
+        Seq(vec![Alias(1), km(&["k3", "k1"])]),
+        Seq(vec![km(&["k1"])]),
+        Seq(vec![km(&["k1"]), km(&["k1"])]),
+        Seq(vec![Seq(vec![km(&["k1"]), km(&["k1", "k2"])]), km(&["k2", "k3"])]),
+        Seq(vec![km(&["k2", "k3"]), Seq(vec![km(&["k1", "k2"]), Alias(2)])]),
+        Alias(4),
+        Alias(5),
+        Map(vec![Own("k1"), Merge(km(&["k1", "k2"]))]),
+        Map(vec![Merge(km(&["k2", "k3"])), Own("k2")]),
+        Map(vec![Merge(km(&["k1", "k2"])), Merge(km(&["k2", "k3"]))]),
+        Map(vec![Merge(Seq(vec![km(&["k1"]), km(&["k1", "k2"])])), Own("k3")]),
+        Alias(3),
+        Map(vec![Merge(Alias(3)), Own("k4")]),
+        Map(vec![Merge(null("~"))]),
+    ]
+}
+
+/// Reduced alphabet (third merge entry in the quick tier, own-duplicate part).
+fn alphabet_small() -> Vec<Src> {
+    use Ent::*;
+    use Src::*;
+    vec![
+        km(&["k1", "k2"]),
+        km(&["k2", "k3"]),
+        Alias(2),
+        Scalar("~", Style::Plain),
+        Seq(vec![km(&["k1", "k2"]), Alias(1)]),
+        Seq(vec![Seq(vec![km(&["k1"]), km(&["k1", "k2"])]), km(&["k2", "k3"])]),
+        Alias(4),
+        Map(vec![Merge(km(&["k2", "k3"])), Own("k2")]),
+        Map(vec![Merge(km(&["k1", "k2"])), Merge(Alias(1))]),
+        Alias(3),
+    ]
+}
+
+struct Builder {
+    counter: usize,
+    used: BTreeSet<usize>,
+}
+
+impl Builder {
+    fn tok(&mut self) -> Node {
+        let n = Node::plain(&format!("v{}", self.counter));
+        self.counter += 1;
+        n
+    }
+    fn src(&mut self, s: &Src, pre: &[(&'static str, Src)]) -> Node {
+        match s {
+            Src::Map(ents) => Node::map(self.entries(ents, pre)),
+            Src::Alias(i) => {
+                self.mark_used(*i, pre);
+                Node::alias(pre[*i].0)
+            }
+            Src::Seq(items) => Node::seq(items.iter().map(|i| self.src(i, pre)).collect()),
+            Src::Scalar(t, st) => Node::styled(t, *st),
+        }
+    }
+    fn mark_used(&mut self, i: usize, pre: &[(&'static str, Src)]) {
+        if self.used.insert(i) {
+            fn deps(s: &Src, out: &mut Vec<usize>) {
+                match s {
+                    Src::Alias(i) => out.push(*i),
+                    Src::Seq(v) => v.iter().for_each(|x| deps(x, out)),
+                    Src::Map(e) => e.iter().for_each(|x| match x {
+                        Ent::Merge(s) | Ent::OwnMap(_, s) | Ent::Keyed(_, s) => deps(s, out),
+                        Ent::Own(_) => {}
+                    }),
+                    Src::Scalar(..) => {}
+                }
+            }
+            let mut d = Vec::new();
+            deps(&pre[i].1, &mut d);
+            for j in d {
+                self.mark_used(j, pre);
+            }
+        }
+    }
+    fn entries(&mut self, ents: &[Ent], pre: &[(&'static str, Src)]) -> Vec<(Node, Node)> {
+        let mut out = Vec::new();
+        for e in ents {
+            match e {
+                Ent::Own(k) => {
+                    let v = self.tok();
+                    out.push((key_node(k), v));
+                }
+                Ent::OwnMap(k, s) => {
+                    let v = self.src(s, pre);
+                    out.push((key_node(k), v));
+                }
+                Ent::Merge(s) => {
+                    let v = self.src(s, pre);
+                    out.push((Node::plain("<<"), v));
+                }
+                Ent::Keyed(k, s) => {
+                    let v = self.src(s, pre);
+                    out.push((k.clone(), v));
+                }
+            }
+        }
+        out
+    }
+}
+
+/// Build the document: root mapping = [`b: [anchored definitions used]`] + entries.
+fn build_doc(ents: &[Ent]) -> Node {
+    let pre = prelude();
+    let mut b = Builder { counter: 100, used: BTreeSet::new() };
+    let body = b.entries(ents, &pre);
+    // definitions get their values from a separate counter range so they are stable
+    let used: Vec<usize> = b.used.iter().cloned().collect();
+    let mut defs = Vec::new();
+    let mut pb = Builder { counter: 0, used: BTreeSet::new() };
+    for i in used {
+        pb.counter = 10 * (i + 1);
+        let n = pb.src(&pre[i].1, &pre).with_anchor(pre[i].0);
+        defs.push(n);
+    }
+    let mut entries = Vec::new();
+    if !defs.is_empty() {
+        entries.push((Node::plain("b"), Node::seq(defs)));
+    }
+    entries.extend(body);
+    Node::map(entries)
+}
+
+fn check_node(run: &Run, n: &Node, sel: &Sel, class: &str, layouts: &[bool], sample: bool) {
+    let ro = RenderOpts::new();
+    for &flow in layouts {
+        let mut t = n.clone();
+        if flow {
+            t.set_flow(true);
+        }
+        let Some((doc, _)) = render_checked(&t, &ro) else {
+            run.inconclusive("generator-invalid: document not parsed as intended");
+            continue;
+        };
+        acc::count(if flow { "docs_flow" } else { "docs_block" }, 1);
+        if sample {
+            run.sample(|| json!({"class": class, "doc": doc}));
+        }
+        check_doc(run, &doc, flow, sel, class);
+    }
+    acc::flush(run);
+}
+
+/// All root entry sequences with `o` own keys (k1..ko, in order) and `m` merge entries
+/// (every interleaving), merge values from `alpha[j]` for the j-th merge entry.
+fn sequences(own: &[&'static str], m: usize, alphas: &[&[Src]]) -> Vec<Vec<Ent>> {
+    let n = own.len() + m;
+    let mut out = Vec::new();
+    for mask in 0u32..(1 << n) {
+        if mask.count_ones() as usize != m {
+            continue;
+        }
+        // enumerate alphabet choices
+        let mut idx = vec![0usize; m];
+        loop {
+            let mut ents = Vec::with_capacity(n);
+            let (mut oi, mut mi) = (0, 0);
+            for pos in 0..n {
+                if mask & (1 << pos) != 0 {
+                    ents.push(Ent::Merge(alphas[mi][idx[mi]].clone()));
+                    mi += 1;
+                } else {
+                    ents.push(Ent::Own(own[oi]));
+                    oi += 1;
+                }
+            }
+            out.push(ents);
+            // increment
+            let mut k = 0;
+            loop {
+                if k == m {
+                    break;
+                }
+                idx[k] += 1;
+                if idx[k] < alphas[k].len() {
+                    break;
+                }
+                idx[k] = 0;
+                k += 1;
+            }
+            if k == m {
+                break;
+            }
+        }
+    }
+    out
+}
+
+// ------------------------------------------------------------------ random generator
+
+struct Gen<'r> {
+    rng: &'r mut Rng,
+    c: usize,
+    n_anchor: usize,
+    maps: Vec<String>,
+    seqs: Vec<String>,
+    scalars: Vec<String>,
+    badseqs: Vec<String>,
+    bad_budget: usize,
+}
+
+const KEYS: [&str; 6] = ["k1", "k2", "k3", "k4", "k5", "a"];
+
+impl Gen<'_> {
+    fn tok(&mut self) -> Node {
+        let n = Node::plain(&format!("v{}", self.c));
+        self.c += 1;
+        n
+    }
+    fn key(&mut self, name: &str) -> Node {
+        match self.rng.below(24) {
+            0 | 1 => Node::dq(name),
+            2 => Node::sq(name),
+            3 => Node::plain(name).with_tag("!!str"),
+            4 => Node::fseq(vec![Node::plain(name)]),
+            5 => Node::fmap(vec![(Node::plain(name), Node::plain("x"))]),
+            _ => Node::plain(name),
+        }
+    }
+    fn fresh(&mut self, prefix: &str) -> String {
+        self.n_anchor += 1;
+        format!("{prefix}{}", self.n_anchor)
+    }
+    /// A mapping with own entries and merge entries. Returns (node, has own duplicates).
+    fn gen_map(&mut self, depth: usize, is_source: bool) -> (Node, bool) {
+        let n = self.rng.range(if is_source { 1 } else { 0 }, 5);
+        let mut pool: Vec<&str> = KEYS.to_vec();
+        self.rng.shuffle(&mut pool);
+        let mut used: Vec<&str> = Vec::new();
+        let mut entries = Vec::new();
+        let mut dups = false;
+        for _ in 0..n {
+            let merge_p = if depth == 0 { 0 } else { 2 };
+            if self.rng.below(5) < merge_p {
+                let v = self.gen_src(depth - 1, 0);
+                entries.push((Node::plain("<<"), v));
+                continue;
+            }
+            let name = if !is_source && !used.is_empty() && self.rng.chance(1, 8) {
+                dups = true;
+                *self.rng.pick(&used)
+            } else {
+                match pool.pop() {
+                    Some(k) => k,
+                    None => continue,
+                }
+            };
+            used.push(name);
+            let k = self.key(name);
+            let v = match self.rng.below(20) {
+                0..=4 if depth > 0 => {
+                    let (mut m, d) = self.gen_map(depth - 1, false);
+                    if self.rng.chance(1, 2) {
+                        let a = self.fresh("m");
+                        m = m.with_anchor(&a);
+                        if !d {
+                            self.maps.push(a);
+                        }
+                    }
+                    m
+                }
+                5 | 6 => {
+                    let k = self.rng.range(0, 3);
+                    let mut s = Node::seq((0..k).map(|_| self.tok()).collect());
+                    if self.rng.chance(1, 3) {
+                        let a = self.fresh("q");
+                        s = s.with_anchor(&a);
+                        if k > 0 {
+                            self.badseqs.push(a);
+                        }
+                    }
+                    s
+                }
+                7 => {
+                    // an ordinary alias value
+                    let all: Vec<&String> = self.maps.iter().chain(self.seqs.iter()).chain(self.scalars.iter()).collect();
+                    if all.is_empty() { self.tok() } else { { let a: String = (*self.rng.pick(&all[..])).clone(); Node::alias(&a) } }
+                }
+                8 => {
+                    let a = self.fresh("x");
+                    let t = self.tok().with_anchor(&a);
+                    self.scalars.push(a);
+                    t
+                }
+                _ => self.tok(),
+            };
+            entries.push((k, v));
+        }
+        (Node::map(entries), dups)
+    }
+    /// A merge value.
+    fn gen_src(&mut self, depth: usize, seq_depth: usize) -> Node {
+        if self.bad_budget > 0 && self.rng.chance(1, 6) {
+            self.bad_budget -= 1;
+            return match self.rng.below(4) {
+                0 if !self.scalars.is_empty() => { let a: String = self.rng.pick(&self.scalars[..]).clone(); Node::alias(&a) },
+                1 if !self.badseqs.is_empty() => { let a: String = self.rng.pick(&self.badseqs[..]).clone(); Node::alias(&a) },
+                2 => Node::dq("~"),
+                _ => self.tok(),
+            };
+        }
+        match self.rng.below(20) {
+            0..=6 => {
+                let (mut m, _) = self.gen_map(depth, true);
+                if self.rng.chance(1, 3) {
+                    let a = self.fresh("m");
+                    m = m.with_anchor(&a);
+                    self.maps.push(a);
+                }
+                m
+            }
+            7..=12 if !self.maps.is_empty() => { let a: String = self.rng.pick(&self.maps[..]).clone(); Node::alias(&a) },
+            13..=16 if seq_depth < 2 => {
+                let k = self.rng.range(0, 3);
+                let mut s = Node::seq((0..k).map(|_| self.gen_src(depth, seq_depth + 1)).collect());
+                if self.rng.chance(1, 3) && self.bad_budget == 0 {
+                    let a = self.fresh("s");
+                    s = s.with_anchor(&a);
+                    self.seqs.push(a);
+                }
+                s
+            }
+            17 if !self.seqs.is_empty() => { let a: String = self.rng.pick(&self.seqs[..]).clone(); Node::alias(&a) },
+            18 if seq_depth == 0 => Node::plain(*self.rng.pick(&["~", "null", "Null", "NULL"])),
+            _ => {
+                let (m, _) = self.gen_map(depth, true);
+                m
+            }
+        }
+    }
+}
+
+fn random_doc(rng: &mut Rng) -> (Node, bool) {
+    let bad = rng.chance(1, 16);
+    let depth = rng.range(1, 3);
+    let mut g = Gen {
+        rng,
+        c: 0,
+        n_anchor: 0,
+        maps: Vec::new(),
+        seqs: Vec::new(),
+        scalars: Vec::new(),
+        badseqs: Vec::new(),
+        bad_budget: if bad { 1 } else { 0 },
+    };
+    // optional prelude under `b`
+    let mut entries = Vec::new();
+    if g.rng.chance(1, 2) {
+        let k = g.rng.range(1, 3);
+        let mut defs = Vec::new();
+        for _ in 0..k {
+            let (m, d) = g.gen_map(1, true);
+            let a = g.fresh("m");
+            defs.push(m.with_anchor(&a));
+            if !d {
+                g.maps.push(a);
+            }
+        }
+        entries.push((Node::plain("b"), Node::seq(defs)));
+    }
+    let (root, _) = g.gen_map(depth, false);
+    if let Node::Map { entries: e, .. } = root {
+        entries.extend(e);
+    }
+    let mut root = Node::map(entries);
+    // layout: whole document flow, or some sub-trees flow
+    let whole_flow = g.rng.chance(1, 3);
+    if !whole_flow {
+        let paths = vcore::treegen::node_paths(&root);
+        for _ in 0..g.rng.below(3) {
+            let p = g.rng.pick(&paths).clone();
+            if !p.is_empty() {
+                vcore::treegen::node_at_mut(&mut root, &p).set_flow(true);
+            }
+        }
+    }
+    (root, whole_flow)
+}
+
+// ------------------------------------------------------------------ main
+
+fn main() {
+    let run = Run::from_args("C03");
+    let table = target_table();
+    let all_policies = [0usize, 1, 2];
+    if let Some(rep) = run.is_replay() {
+        let case = &rep["case"];
+        let doc = case["doc"].as_str().unwrap_or("").to_string();
+        let pol: Vec<usize> = match case["policy"].as_str() {
+            Some(p) => POLICY_NAMES.iter().position(|n| *n == p).into_iter().collect(),
+            None => all_policies.to_vec(),
+        };
+        if case["kind"].as_str() == Some("ordinary") {
+            check_ordinary(&run, &doc, case["renamed"].as_str().unwrap_or(""), &pol);
+        } else {
+            let tsel: Vec<(&'static str, TargetFn, bool)> = match case["target"].as_str() {
+                Some(t) => table.iter().filter(|x| x.0 == t).cloned().collect(),
+                None => table.clone(),
+            };
+            let sel = Sel { policies: &pol, targets: &tsel };
+            check_doc(&run, &doc, case["flow"].as_bool().unwrap_or(false), &sel, "replay");
+        }
+        acc::flush(&run);
+        run.finish(Finish::new("replay"));
+    }
+
+    let tier = run.tier;
+    let sel_all = Sel { policies: &all_policies, targets: &table };
+    let both = [false, true];
+
+    // ---- 1. exhaustive: <= 3 own keys x <= 3 merge entries x value shapes x interleavings
+    let alpha = alphabet();
+    let small = alphabet_small();
+    let owns: [&[&'static str]; 4] = [&[], &["k1"], &["k1", "k2"], &["k1", "k2", "k3"]];
+    let mut cases: Vec<Vec<Ent>> = Vec::new();
+    for own in owns.iter() {
+        cases.extend(sequences(own, 1, &[&alpha[..]]));
+        cases.extend(sequences(own, 2, &[&alpha[..], &alpha[..]]));
+    }
+    // own keys in another order than the sources list them
+    cases.extend(sequences(&["k3", "k1"], 1, &[&alpha[..]]));
+    cases.extend(sequences(&["k2", "k1"], 2, &[&alpha[..], &alpha[..]]));
+    let n_le2 = cases.len();
+    let third: &[Src] = tier.pick(&small[..], &alpha[..]);
+    let own3: &[&[&'static str]] = tier.pick(&owns[..3], &owns[..]);
+    for own in own3.iter() {
+        cases.extend(sequences(own, 3, &[&alpha[..], tier.pick(&small[..], &alpha[..]), third]));
+    }
+    let debug_limit: Option<usize> = std::env::var("C03_LIMIT").ok().and_then(|l| l.parse().ok());
+    if let Some(l) = debug_limit {
+        run.note("C03_LIMIT set: debugging run, exhaustive part sampled, random part shortened");
+        let step = (cases.len() / l).max(1);
+        let mut i = 0;
+        cases.retain(|_| {
+            i += 1;
+            i % step == 0
+        });
+    }
+    acc::count("exhaustive_entry_sequences", cases.len() as u64);
+    acc::count("exhaustive_entry_sequences_le2_merges", n_le2 as u64);
+    par_range(cases.len(), |i| {
+        let n = build_doc(&cases[i]);
+        check_node(&run, &n, &sel_all, "exhaustive", &both, i % 4001 == 0);
+    });
+
+    // ---- 2. own duplicates next to merges (Error: both fail; First/LastWins: compared as usual)
+    {
+        let dup_owns: [&[&'static str]; 7] = [
+            &["k1", "k1"],
+            &["k1", "k2", "k1"],
+            &["k1", "k1", "k2"],
+            &["k1", "k2", "k2"],
+            &["k1", "k1", "k1"],
+            &["k1", "\"k1"],
+            &["'k2", "k1", "k2"],
+        ];
+        let mut dc: Vec<Vec<Ent>> = Vec::new();
+        for own in dup_owns.iter() {
+            dc.extend(sequences(own, 1, &[&alpha[..]]));
+            dc.extend(sequences(own, 2, &[&small[..], &small[..]]));
+        }
+        acc::count("own_duplicate_entry_sequences", dc.len() as u64);
+        par_range(dc.len(), |i| {
+            let n = build_doc(&dc[i]);
+            check_node(&run, &n, &sel_all, "own-duplicates", &both, i % 1501 == 0);
+        });
+    }
+
+    // ---- 3. key spellings: style does not matter, tag does; complex keys collide structurally
+    {
+        let spell: [&'static str; 6] = ["k1", "\"k1", "'k1", "!k1", "[k1", "{k1"];
+        let mut kc: Vec<Vec<Ent>> = Vec::new();
+        for own in spell {
+            for src in spell {
+                for other in ["k2", "[k2"] {
+                    let s = Src::Map(vec![Ent::Own(src), Ent::Own(other)]);
+                    kc.push(vec![Ent::Own(own), Ent::Merge(s.clone())]);
+                    kc.push(vec![Ent::Merge(s.clone()), Ent::Own(own)]);
+                    kc.push(vec![Ent::Merge(Src::Seq(vec![s.clone(), km(&["k1", "k3"])])), Ent::Own(own)]);
+                    // two sources with differently spelled keys, no own key
+                    kc.push(vec![Ent::Merge(Src::Map(vec![Ent::Own(own)])), Ent::Merge(s.clone())]);
+                }
+            }
+        }
+        acc::count("key_spelling_cases", kc.len() as u64);
+        par_range(kc.len(), |i| {
+            let n = build_doc(&kc[i]);
+            check_node(&run, &n, &sel_all, "key-spelling", &both, i % 97 == 0);
+        });
+    }
+
+    // ---- 4. merges below the root: in values, in sequence items, inside merged values
+    {
+        let mut nc: Vec<Vec<Ent>> = Vec::new();
+        for s in &alpha {
+            let inner = Src::Map(vec![Ent::Own("k1"), Ent::Merge(s.clone()), Ent::Own("k4")]);
+            nc.push(vec![Ent::OwnMap("k5", inner.clone()), Ent::Own("k1")]);
+            // a merged value that itself contains merges
+            nc.push(vec![Ent::Merge(Src::Map(vec![Ent::OwnMap("k5", inner.clone()), Ent::Own("k2")])), Ent::Own("k1")]);
+            // an overridden merged value containing merges (never delivered)
+            nc.push(vec![Ent::Own("k5"), Ent::Merge(Src::Map(vec![Ent::OwnMap("k5", inner.clone()), Ent::Own("k2")]))]);
+            nc.push(vec![Ent::OwnMap("a", Src::Seq(vec![inner.clone(), inner.clone()]))]);
+        }
+        acc::count("nested_cases", nc.len() as u64);
+        par_range(nc.len(), |i| {
+            let n = build_doc(&nc[i]);
+            check_node(&run, &n, &sel_all, "nested", &both, i % 37 == 0);
+        });
+    }
+
+    // ---- 5. must-fail merge values, and the null-in-sequence class that gets no verdict
+    {
+        use Src::*;
+        let sc = |t, st| Scalar(t, st);
+        let bad: Vec<Src> = vec![
+            sc("x", Style::Plain),
+            sc("5", Style::Plain),
+            sc("true", Style::Plain),
+            sc("x", Style::Double),
+            sc("", Style::Double),
+            sc("", Style::Single),
+            sc("~", Style::Single),
+            sc("null", Style::Double),
+            Seq(vec![sc("x", Style::Plain)]),
+            Seq(vec![km(&["k1"]), sc("x", Style::Plain)]),
+            Seq(vec![sc("7", Style::Plain), km(&["k1"])]),
+            Seq(vec![Seq(vec![sc("x", Style::Plain)])]),
+            Seq(vec![km(&["k1"]), Seq(vec![km(&["k2"]), sc("x", Style::Double)])]),
+            Alias(6),
+            Alias(7),
+            Alias(8),
+            Seq(vec![Alias(0), Alias(6)]),
+            // unspecified: null inside a sequence
+            Seq(vec![sc("~", Style::Plain)]),
+            Seq(vec![km(&["k1"]), sc("null", Style::Plain)]),
+        ];
+        let mut mc: Vec<Vec<Ent>> = Vec::new();
+        for b in &bad {
+            let m = || Ent::Merge(b.clone());
+            mc.push(vec![m()]);
+            mc.push(vec![Ent::Own("k1"), m()]);
+            mc.push(vec![m(), Ent::Own("k1")]);
+            mc.push(vec![Ent::Merge(km(&["k1", "k2"])), m(), Ent::Own("k3")]);
+            mc.push(vec![m(), Ent::Merge(Alias(0))]);
+            mc.push(vec![Ent::Own("k1"), Ent::Merge(Map(vec![m(), Ent::Own("k2")]))]);
+            mc.push(vec![Ent::Merge(Seq(vec![km(&["k1"]), Map(vec![Ent::Own("k2"), m()])]))]);
+            mc.push(vec![Ent::OwnMap("k1", Map(vec![Ent::Own("k2"), m()])), Ent::Own("k3")]);
+            mc.push(vec![Ent::OwnMap("a", Seq(vec![km(&["k1"]), Map(vec![m()])]))]);
+        }
+        acc::count("must_fail_family_cases", mc.len() as u64);
+        par_range(mc.len(), |i| {
+            let n = build_doc(&mc[i]);
+            check_node(&run, &n, &sel_all, "must-fail", &both, i % 23 == 0);
+        });
+    }
+
+    // ---- 6. empty merge value (null written as nothing): fixed texts, the raw parser decides what they mean
+    for doc in [
+        "<<:\nk1: v1\n",
+        "k1: v1\n<<:\n",
+        "k1: v1\n<<:\nk2: v2\n<<: {k1: v3, k3: v4}\n",
+        "{<<: , k1: v1}\n",
+        "{k1: v1, <<: }\n",
+        "k5:\n  <<:\n  k1: v1\nk2: v2\n",
+        "<<: {<<: , k1: v1}\nk2: v2\n",
+        "b:\n- &m1\n  k1: v1\n  <<:\n<<: *m1\nk2: v2\n",
+    ] {
+        acc::count("empty_merge_value_texts", 1);
+        check_doc(&run, doc, doc.starts_with('{'), &sel_all, "empty-merge-value");
+    }
+
+    // ---- 7. quoted / tagged `<<` is an ordinary key
+    {
+        let spellings: Vec<(&str, Box<dyn Fn(&str) -> Node>)> = vec![
+            ("dq", Box::new(|t: &str| Node::dq(t))),
+            ("sq", Box::new(|t: &str| Node::sq(t))),
+            ("!!str", Box::new(|t: &str| Node::plain(t).with_tag("!!str"))),
+            ("!", Box::new(|t: &str| Node::plain(t).with_tag("!"))),
+            ("dq!!str", Box::new(|t: &str| Node::dq(t).with_tag("!!str"))),
+        ];
+        let values: Vec<Src> = vec![
+            km(&["k1", "k2"]),
+            Src::Alias(0),
+            Src::Seq(vec![km(&["k1"]), Src::Alias(1)]),
+            Src::Scalar("x", Style::Plain),
+            Src::Scalar("~", Style::Plain),
+            Src::Seq(vec![Src::Scalar("x", Style::Plain)]),
+        ];
+        let mut n_ord = 0u64;
+        for (_name, mk) in &spellings {
+            for v in &values {
+                for ctx in 0..5 {
+                    let build = |keytext: &str| -> Node {
+                        let k = Ent::Keyed(mk(keytext), v.clone());
+                        let ents = match ctx {
+                            0 => vec![k],
+                            1 => vec![Ent::Own("k1"), k, Ent::Own("k3")],
+                            2 => vec![k, Ent::Merge(km(&["k2", "k3"])), Ent::Own("k1")],
+                            3 => vec![Ent::Merge(Src::Map(vec![k, Ent::Own("k2")])), Ent::Own("k1")],
+                            _ => vec![Ent::OwnMap("k5", Src::Map(vec![Ent::Own("k1"), k])), Ent::Merge(Src::Alias(1))],
+                        };
+                        build_doc(&ents)
+                    };
+                    let (a, b) = (build("<<"), build("zz9"));
+                    for flow in both {
+                        let (mut a, mut b) = (a.clone(), b.clone());
+                        if flow {
+                            a.set_flow(true);
+                            b.set_flow(true);
+                        }
+                        let ro = RenderOpts::new();
+                        let (Some((da, _)), Some((db, _))) = (render_checked(&a, &ro), render_checked(&b, &ro)) else {
+                            run.inconclusive("generator-invalid: ordinary-key document not parsed as intended");
+                            continue;
+                        };
+                        n_ord += 1;
+                        if n_ord % 41 == 0 {
+                            run.sample(|| json!({"class": "ordinary-key", "doc": da, "renamed": db}));
+                        }
+                        check_ordinary(&run, &da, &db, &all_policies);
+                        // and the general relation (the quoted key is an own entry of the written-out mapping)
+                        check_doc(&run, &da, flow, &sel_all, "ordinary-key");
+                    }
+                }
+            }
+        }
+        acc::count("ordinary_key_docs", n_ord);
+    }
+
+    // ---- 8. seeded random documents
+    let n_random = if debug_limit.is_some() { 4000 } else { tier.pick(60_000, 1_500_000) };
+    par_range(n_random, |i| {
+        let mut rng = Rng::stream(run.seed, i as u64);
+        let (n, flow) = random_doc(&mut rng);
+        let pol = [rng.below(3)];
+        let sel = Sel { policies: if i % 4 == 0 { &all_policies } else { &pol }, targets: &table };
+        acc::count("random_docs", 1);
+        check_node(&run, &n, &sel, "random", &[flow], i % 9973 == 0);
+    });
+
+    let scope = format!(
+        "root mappings with own keys k1..ko (o<=3, in order; plus 2 reversed-order variants) and m merge entries in every interleaving, merge values from a {}-shape alphabet (inline map, alias to map, null, empty map/seq, seq of maps/aliases, nested seq, alias to seq, nested merges up to 3 levels): all of o<=3 x m<=2; m=3 with {} x {{block, flow}} x 3 policies x 7 targets; plus the own-duplicate, key-spelling, nested-position, must-fail and ordinary-key families listed in the counters",
+        alpha.len(),
+        if tier == Tier::Quick { "o<=2 and the 2nd/3rd entry from the 10-shape reduced alphabet" } else { "o<=3 and the full alphabet in every position" },
+    );
+    let fin = Finish::new(
+        "a case (document, policy, target) is non-trivial when, by the reference rule applied to the raw parser tree, >= 1 merge source entry was contributed or was overridden by a key already present — or it is a must-fail merge value, or a quoted/tagged `<<` case; distinct by hash(doc, target, policy)",
+    )
+    .exhaustive(scope)
+    .assume("raw saphyr-parser event stream is the ground truth for what a document means (the written-out document is computed from it and re-confirmed by it)")
+    .assume("budget and alias limits switched off: max_merge_keys belongs to C07")
+    .assume("no verdict (counted as unspecified/*): null inside a merge sequence, repeated keys inside a merge source, tagged containers as source or key, `<<` inside a key, invalid merge value next to own duplicates")
+    .min_nontrivial(if tier == Tier::Quick { 20_000 } else { 200_000 });
+    acc::flush(&run);
+    run.finish(fin);
+}
